@@ -195,6 +195,10 @@ def run(ctx):
     c02.run_r3(ctx, r6)
     c02.run_r4(ctx, r6)
     c02.run_r7(ctx, r6)
+    # ... and the window is fed by reads of at most chunk_size bytes from the caller's source itself: a reader built
+    # from a BufReader takes over its buffered bytes and reads on from the inner source, not through the BufReader
+    # (whose refills are sized by its own capacity): C02-R6
+    c02.run_r6(ctx, r6)
 
     ctx.extra["exhaustive"] = True
     ctx.assume("DeferredReader::request_byte_at_offset returns the byte at that offset or None at the end of the available data (C02)")
